@@ -17,6 +17,10 @@ import (
 
 type c08Case struct {
 	P vPipeCase `json:"pipe"` // Blocks = partition of run B; run A uses one block of the same total length
+	// Invalid: the edge-multi settings break the documented validity rule for these record lengths (zero-threshold
+	// refinement with fewer than 4 samples on either side, or more monotone samples demanded than follow the trigger).
+	// The request must be refused; if it is accepted, processing must still not index outside the data.
+	Invalid bool `json:"invalid,omitempty"`
 }
 
 func c08Gen(t *rapid.T) c08Case {
@@ -42,6 +46,28 @@ func c08Gen(t *rapid.T) c08Case {
 	}
 	if !tr.EMT {
 		tr = vTrigCfg{EMT: true, EMTMode: 1, EMTLevel: 50, EMTNMono: 1, EMTNoZero: c.Npre < 4 || c.Nsamp-c.Npre < 4}
+	}
+	invalid := false
+	if rapid.IntRange(0, 7).Draw(t, "invalidcfg") == 0 {
+		// break the validity rule on purpose
+		switch rapid.IntRange(0, 2).Draw(t, "howinvalid") {
+		case 0: // too few pre-trigger samples for the refinement
+			c.Npre = 3
+			if c.Nsamp < 8 {
+				c.Nsamp = 8
+			}
+			tr.EMTNoZero = false
+			tr.EMTNMono = minInt(tr.EMTNMono, c.Nsamp-c.Npre)
+		case 1: // too few post-trigger samples for the refinement
+			c.Npre = maxInt(c.Npre, 4)
+			c.Nsamp = c.Npre + rapid.IntRange(1, 3).Draw(t, "npost")
+			tr.EMTNoZero = false
+			tr.EMTNMono = minInt(tr.EMTNMono, c.Nsamp-c.Npre)
+		default: // more monotone samples than the post-trigger part holds
+			tr.EMTNMono = c.Nsamp - c.Npre + rapid.IntRange(1, 5).Draw(t, "monoextra")
+		}
+		invalid = !tr.emtValid(c.Npre, c.Nsamp)
+		c.Blocks = vGenPartition(t, c.Npre, c.Nsamp, total)
 	}
 	c.Hist = []vHistOp{{At: 0, Kind: "trigger", Chans: []int{0}, Trig: tr}}
 	c.Pulses = vGenPulses(t, 1, c.Nsamp, c.Blocks, 8)
@@ -80,7 +106,7 @@ func c08Gen(t *rapid.T) c08Case {
 			break
 		}
 	}
-	return c08Case{P: c}
+	return c08Case{P: c, Invalid: invalid}
 }
 
 type c08Rec struct {
@@ -105,6 +131,27 @@ func c08Collect(c *vPipeCase) ([]c08Rec, *vVerdict) {
 
 func c08Run(cc c08Case) (v vVerdict) {
 	c := cc.P
+	if cc.Invalid {
+		if len(c.Hist) != 1 || c.Hist[0].Kind != "trigger" || !c.Hist[0].Trig.EMT || c.Hist[0].Trig.emtValid(c.Npre, c.Nsamp) {
+			return v
+		}
+		probe := c
+		probe.Hist = nil
+		if !probe.valid() || c.Nchan != 1 || len(c.Restored) != 0 {
+			return v
+		}
+		_, fail := c08Collect(&c)
+		if fail != nil && fail.Sig == "config-rejected" {
+			v.Classes = append(v.Classes, "invalid-settings-refused")
+			return v
+		}
+		if fail != nil {
+			fail.Msg = "edge-multi settings that break the validity rule were accepted; then: " + fail.Msg
+			return *fail
+		}
+		v.Classes = append(v.Classes, "invalid-settings-accepted-without-harm")
+		return v
+	}
 	if !c.valid() || c.Nchan != 1 || len(c.Hist) != 1 || c.Hist[0].Kind != "trigger" || !c.Hist[0].Trig.EMT || c.Hist[0].At != 0 || len(c.Restored) != 0 {
 		return v
 	}
